@@ -660,6 +660,12 @@ async def _run_ops(ses: Session, h, job, label, cmd, ops, env, reads):
             await _run_ops(ses, h, job, label, cmd, branch, env, reads)
         elif kind == "nop":
             pass
+        elif kind == "try":
+            # attempt a declaration; a rejection (UsageError) is caught as a plan author could
+            try:
+                await _run_ops(ses, h, job, label, cmd, [op[1]], env, reads)
+            except UsageError as exc:
+                ses.emit("caught", job=job, step=label, exc=type(exc).__name__)
         else:
             raise ScriptAbort(2, f"unknown op {kind}")
 
